@@ -21,10 +21,11 @@ Menu == <<
   In(3, "bool", <<<<>>, Pz(Sq(0, 0, 21, 21), 10), <<>>>>, <<<<>>>>, <<>>),
   In(4, "bool", <<>>, <<>>, <<>>),
   In(5, "bool", <<>>, <<Pz(<<<<0, 0>>, <<50, 50>>>>, 5)>>, <<Pz(Sq(10, 10, 30, 30), 7), <<>>>>),
-  In(11, "infl", <<Pz(<<<<0, 0>>, <<60, 4>>, <<0, 9>>>>, 10), Pz(<<<<80, 0>>, <<100, 0>>, <<120, 0>>, <<120, 41>>, <<80, 41>>>>, 20)>>, <<>>, <<>>),
+  In(11, "infl", <<Pz(<<<<0, 0>>, <<60, 4>>, <<0, 9>>>>, 10), Pz(<<<<0, 100>>, <<60, 78>>, <<60, 122>>>>, 15), Pz(<<<<80, 0>>, <<100, 0>>, <<120, 0>>, <<120, 41>>, <<80, 41>>>>, 20)>>, <<>>, <<>>),
   In(12, "infl", <<Pz(<<<<0, 0>>, <<40, 0>>, <<40, 30>>>>, 10), Pz(<<<<0, 60>>, <<50, 61>>>>, 20), Pz(<<<<90, 90>>>>, 30)>>, <<>>, <<>>),
   In(13, "infl", <<>>, <<>>, <<>>),
   In(21, "infl1", <<Pz(<<<<0, 0>>, <<30, 2>>, <<60, 4>>, <<0, 9>>>>, 10)>>, <<>>, <<>>),
+  In(23, "infl1", <<Pz(<<<<0, 0>>, <<30, -11>>, <<60, -22>>, <<60, 22>>>>, 10)>>, <<>>, <<>>),
   In(22, "infl1", <<Pz(<<<<0, 0>>, <<40, 1>>, <<40, 30>>, <<10, 30>>>>, 10)>>, <<>>, <<>>),
   In(31, "rect", <<Pz(<<<<-5, -5>>, <<50, 10>>, <<30, 50>>, <<3, 33>>>>, 10), Pz(<<<<0, 20>>, <<60, 21>>, <<61, 70>>>>, 20)>>, <<>>, <<>>),
   In(32, "rect", <<Pz(Sq(10, 6, 20, 30), 10), Pz(Sq(100, 100, 120, 120), 20), <<>>, Pz(<<<<9, 5>>, <<43, 35>>>>, 30)>>, <<>>, <<>>),
